@@ -246,6 +246,9 @@ def check(ctx: Ctx):
     c03._guarded(ctx, "R17.2", c17.check_header_rejection)
 
     c03._guarded(ctx, "R15.7", c15.check_globals)
+    # the lists that fix the layout of rows and tables (group names, metric keys) are not handed to functions
+    # that modify their list parameter in place (R15.6, through callees)
+    c03._guarded(ctx, "R15.6", c15.check_state_through_callees)
 
 
 _A = "panoptica/panoptica_aggregator.py"
